@@ -202,6 +202,15 @@ void shutdown_quiet() {
   g_activity = act;
 }
 
+// One accepted call before the harness has installed any reporter or tracer (the way a program that only sets
+// expectations starts): whatever the library decides "once" at its first use must not depend on that order.
+void cold_start() {
+  Mk m;
+  ALLOW_CALL(m, f(trompeloeil::_)).RETURN(0);
+  m.f(1);
+  m.f(2);
+}
+
 void reset() {
   shutdown_quiet();
   S = new State;
